@@ -2290,9 +2290,12 @@ class PyCdlib:
         try:
             self._open_fp(fp)
         except pycdlibexception.PyCdlibException:
+            # What was parsed before the failure must not stay behind.
+            self._initialize()
             raise
         except (struct.error, IndexError, KeyError, ValueError, TypeError,
                 AttributeError, ArithmeticError, UnicodeError) as err:
+            self._initialize()
             raise pycdlibexception.PyCdlibInvalidISO('Malformed ISO (%s: %s)' % (type(err).__name__, err))
 
     def _open_fp(self, fp):
@@ -3989,6 +3992,31 @@ class PyCdlib:
         if self._initialized:
             raise pycdlibexception.PyCdlibInvalidInput('This object already has an ISO; either close it or create a new object')
 
+        try:
+            self._new(interchange_level, sys_ident, vol_ident, set_size,
+                      seqnum, log_block_size, vol_set_ident, pub_ident_str,
+                      preparer_ident_str, app_ident_str, copyright_file,
+                      abstract_file, bibli_file, vol_expire_date, app_use,
+                      joliet, rock_ridge, xa, udf)
+        except Exception:
+            # What was set up before the failure must not stay behind.
+            self._initialize()
+            raise
+
+    def _new(self, interchange_level, sys_ident, vol_ident, set_size,
+             seqnum, log_block_size, vol_set_ident, pub_ident_str,
+             preparer_ident_str, app_ident_str, copyright_file,
+             abstract_file, bibli_file, vol_expire_date, app_use,
+             joliet, rock_ridge, xa, udf):
+        # type: (int, str, str, int, int, int, str, str, str, str, str, str, str, Optional[float], str, Optional[int], Optional[str], bool, Optional[str]) -> None
+        """
+        An internal method that does the work of new().
+
+        Parameters:
+         See new().
+        Returns:
+         Nothing.
+        """
         if interchange_level < 1 or interchange_level > 4:
             raise pycdlibexception.PyCdlibInvalidInput('Invalid interchange level (must be between 1 and 4)')
 
